@@ -647,9 +647,19 @@ def verify(prog, fn, bb, sink, spec, _facts_override=None):
                 steps = lv[0][0]
             else:
                 return False, "operand %s: leaves %s do not all derive from %s (+<=%d)" % (spec["which"], [(describe_origin(fn, st), off) for st, off in lv], spec["from"], spec["max_offset"])
+        via_leaves = False
+        if not origin_matches(fn, steps, spec["from"]) and "call" in spec["from"] and op[0] in ("c", "m"):
+            # the value may be bound in several match arms and handed on in a tuple (`let (n, ..) = match .. { Some(n) => (n, ..) }`):
+            # every value the operand can hold must be of the required origin
+            from . import paths as _paths
+            lv = _paths.leaf_values(fn, op)
+            if lv and all(l[0] == "call" and origin_matches(fn, [("call", l[1], l[2])], spec["from"]) for l in lv):
+                steps = [("call", lv[0][1], lv[0][2])]
+                via_leaves = True
         if origin_matches(fn, steps, spec["from"]):
             how = "operand %s derives from %s" % (spec["which"], describe_origin(fn, steps))
-            if spec.get("dominated", True) and "payload" in spec["from"]:
+            # (a payload bound inside match arms and handed on -- the leaf_values case -- was read under its edge there)
+            if spec.get("dominated", True) and "payload" in spec["from"] and not via_leaves:
                 # the payload is only meaningful under the variant edge
                 ok = False
                 for f in facts:
